@@ -40,3 +40,33 @@ pub fn c13_kmer_iter<const K: usize, const N: usize, const R: usize>() {
     cover!(true, "req: end of harness reached");
     core::mem::forget(boxed);
 }
+
+
+/// Structural clause: after construction (the String is consumed) and two moves,
+/// the inner core iterator walks exactly the object's own Arc-owned copy of the
+/// string's bytes: same address, same length, same content as the input.  With C01
+/// (the core iterator is right on every byte string) this gives "same tuples as the
+/// core" for strings of any content of this length, and validity after the Python
+/// string is gone.
+pub fn c13_kmer_wiring<const K: usize, const N: usize>() {
+    let mut bytes = [0u8; N];
+    let mut i = 0;
+    while i < N {
+        let b = any_u8();
+        assume(b < 0x80);
+        bytes[i] = b;
+        i += 1;
+    }
+    let py = build(&bytes[..N], K);
+    let boxed = Box::new(py);
+    let walked = kmer::kmer::verif_c13a::seq_of(&boxed._kg);
+    let owned: &[u8] = &boxed._data;
+    check!(walked.as_ptr() == owned.as_ptr() && walked.len() == owned.len(), "C13: the wrapped k-mer iterator does not walk the bytes the Python object owns");
+    check!(owned.len() == N, "C13: the Python k-mer iterator owns a string of different length than the one given");
+    let j = any_usize();
+    assume(j < N);
+    check!(owned[j] == bytes[j], "C13: the Python k-mer iterator owns different bytes than the string given");
+    check!(boxed.ksize == K, "C13: the Python k-mer iterator stores a different k");
+    cover!(true, "req: end of harness reached");
+    core::mem::forget(boxed);
+}
